@@ -45,8 +45,10 @@ def sx_single(db, fn):
     whether or not sub-expressions were given names or wrapped in small lambdas"""
     global VCFG
     if VCFG is None:
-        VCFG = sx.Config(inline_prefixes=("fcppt::optional::", "fcppt::cond"),
-                         pure_prefixes=("fcppt::random::distribution::base_value", "fcppt::random::distribution::decorated_value", "fcppt::cast::",
+        # base_value / decorated_value are one-line forwarders to type_iso::undecorate / decorate: followed, so that a call of the
+        # forwarder and a direct call of type_iso denote the same value
+        VCFG = sx.Config(inline_prefixes=("fcppt::optional::", "fcppt::cond", "fcppt::random::distribution::base_value", "fcppt::random::distribution::decorated_value"),
+                         pure_prefixes=("fcppt::type_iso::undecorate", "fcppt::type_iso::decorate", "fcppt::cast::",
                                         "fcppt::random::distribution::parameters::make_uniform_indices_advanced"))
     ps = sx.Interp(db, VCFG).paths(fn, this=("sym", "this"), limit=8)
     return ps
@@ -94,8 +96,8 @@ def main(rep, tier, only):
     B = R + "distribution::basic"
     want = {
         "reset": r"^distribution_\.reset\(\)$",
-        "min": r"^make_result\(distribution_\.min\(\)\)$",
-        "max": r"^make_result\(distribution_\.max\(\)\)$",
+        "min": r"^decorated_value\(distribution_\.min\(\)\)$",
+        "max": r"^decorated_value\(distribution_\.max\(\)\)$",
         "distribution": r"^distribution_$",
         "make_result": r"^decorated_value\(r_a0\)$",
     }
@@ -112,9 +114,9 @@ def main(rep, tier, only):
         if short in want:
             pat = want[short]
         elif short == "operator()" and np_ == 1:
-            pat = r"^make_result\(distribution_\.operator\(\)\(r_a0\)\)$"
+            pat = r"^decorated_value\(distribution_\.operator\(\)\(r_a0\)\)$"
         elif short == "operator()" and np_ == 2:
-            pat = r"^make_result\(distribution_\.operator\(\)\(r_a0, r_a1\.convert_from\(\)\)\)$"
+            pat = r"^decorated_value\(distribution_\.operator\(\)\(r_a0, r_a1\.convert_from\(\)\)\)$"
         elif short == "param" and np_ == 0:
             pat = r"^convert_to\(distribution_\)$"
         elif short == "param" and np_ == 1:
@@ -122,6 +124,10 @@ def main(rep, tier, only):
         if pat is None:
             continue
         seen.add(key)
+        if t is not None and short != "make_result":
+            # the private forwarder make_result(x) is decorated_value<result_type>(x) (its own obligation `basic::make_result/1`
+            # decides that): both spellings are one term
+            t = re.sub(r"\bmake_result\(", "decorated_value(", t)
         ok = t is not None and re.match(pat, t)
         (rep.ok if ok else rep.fail)("DEL", key, F.primary_site(fn), F.describe(fn)[:160],
                                      **({"how": t} if ok else {"why": "body is `%s`, expected the wrapped distribution's same-named member once, re-wrapped: /%s/" % (t, pat)}))
@@ -183,7 +189,7 @@ def main(rep, tier, only):
 
                     def src(a):
                         """the member behind base_value(x): this.<field> directly or through .get()"""
-                        if not (isinstance(a, tuple) and a and a[0] == "app" and a[1].split("<")[0].endswith("base_value") and len(a[2]) == 1):
+                        if not (isinstance(a, tuple) and a and a[0] == "app" and a[1].split("<")[0].endswith("type_iso::undecorate") and len(a[2]) == 1):
                             return None
                         x = a[2][0]
                         if isinstance(x, tuple) and x and x[0] == "ev":
@@ -210,7 +216,7 @@ def main(rep, tier, only):
                     def getter(a):
                         while isinstance(a, tuple) and a and a[0] == "new" and len(a[3]) == 1:
                             a = a[3][0]
-                        if not (isinstance(a, tuple) and a and a[0] == "app" and a[1].split("<")[0].endswith("decorated_value") and len(a[2]) == 1):
+                        if not (isinstance(a, tuple) and a and a[0] == "app" and a[1].split("<")[0].endswith("type_iso::decorate") and len(a[2]) == 1):
                             return None
                         x = a[2][0]
                         if isinstance(x, tuple) and x and x[0] == "ev":
